@@ -31,17 +31,17 @@ Definition occ_dash (c : ctxspec) (given : list nat) (o : occ) : bool :=
       match o_form o, o_val o with
       | FNext, VS s =>
           takes_value a && negb (a_optional a) && value_free c s && negb (String.eqb s "--")
-          && match a_kind a with KInt => intlike s | _ => true end
+          && castable a s
           && (akind_eqb (a_kind a) KList || negb (mem_nat (o_arg o) given))
       | FEq, VS s =>
           takes_value a && negb (a_optional a) && value_free c s
-          && match a_kind a with KInt => intlike s | _ => true end
+          && castable a s
           && (akind_eqb (a_kind a) KList || negb (mem_nat (o_arg o) given))
       | FGlued, VS s =>
           takes_value a && negb (a_optional a) && value_free c s
           && negb (String.eqb s "") && negb (contains_char "=" s)
           && Nat.eqb (String.length (flag_of a (o_name o))) 2
-          && match a_kind a with KInt => intlike s | _ => true end
+          && castable a s
           && (akind_eqb (a_kind a) KList || negb (mem_nat (o_arg o) given))
       | _, _ => false
       end
@@ -111,7 +111,7 @@ Lemma dash_facts c given o :
      (o_form o = FGlued /\ String.length (flag_of a (o_name o)) = 2 /\ s <> "" /\
       contains_char "=" s = false)) /\
     takes_value a = true /\ a_optional a = false /\ value_free c s = true /\
-    (a_kind a = KInt -> intlike s = true) /\
+    castable a s = true /\
     (akind_eqb (a_kind a) KList = true \/ mem_nat (o_arg o) given = false).
 Proof.
   unfold occ_dash. destruct (nth_error (cx_args c) (o_arg o)) as [a|]; [|discriminate].
@@ -122,14 +122,11 @@ Proof.
   destruct (o_form o) eqn:Fo; try discriminate; destruct (o_val o) as [b|n|s|]; try discriminate;
     exists a, s; rewrite !andb_true_iff, !negb_true_iff in H.
   - destruct H as [[[[[Tv No] Vf] Nd] Hi] Hg]. repeat split; auto.
-    + left. split; [reflexivity|]. intros E. subst s. discriminate Nd.
-    + intros K. rewrite K in Hi. exact Hi.
+    left. split; [reflexivity|]. intros E. subst s. discriminate Nd.
   - destruct H as [[[[Tv No] Vf] Hi] Hg]. repeat split; auto.
-    intros K. rewrite K in Hi. exact Hi.
   - destruct H as [[[[[[[Tv No] Vf] Ne] Eq] Ln] Hi] Hg]. repeat split; auto.
-    + right. right. split; [reflexivity|]. split; [apply Nat.eqb_eq; exact Ln|].
-      split; [apply String.eqb_neq; exact Ne | exact Eq].
-    + intros K. rewrite K in Hi. exact Hi.
+    right. right. split; [reflexivity|]. split; [apply Nat.eqb_eq; exact Ln|].
+    split; [apply String.eqb_neq; exact Ne | exact Eq].
 Qed.
 
 Lemma one_steps_dash c given o done cur fl got :
